@@ -315,10 +315,16 @@ def history_mixed(rng, p, sessions=None, clean="clean", report_all=True, cleanno
     roots = None
     for _ in range(sessions or rng.randint(2, 5)):
         lines.append("session")
-        if changed and rng.random() < bu_prob:
-            lines.append("bu " + " ".join(map(str, changed)))
         roots = next_roots(rng, n, roots)
-        lines += [f"req {t}" for t in roots]
+        if changed and rng.random() < bu_prob:
+            # the bottom-up build usually comes first; sometimes a require precedes it in the same session, and sometimes
+            # a second bottom-up build follows the requires (session-level state must survive: errors, consistent set)
+            if rng.random() < 0.25: lines.append(f"req {rng.choice(roots)}")
+            lines.append("bu " + " ".join(map(str, changed)))
+            lines += [f"req {t}" for t in roots]
+            if rng.random() < 0.15: lines.append("bu " + " ".join(map(str, changed[:1])))
+        else:
+            lines += [f"req {t}" for t in roots]
         lines.append("endsession")
         lines.append(clean if clean != "clean" else "clean " + " ".join(map(str, roots)))
         if cleannodes: lines.append("cleannodes")
